@@ -105,10 +105,10 @@ func drawDataset(t *rapid.T, wideValues, needNumeric bool) *dataset {
 	ds := &dataset{Points: map[string]map[string]map[int64]model.Val{}}
 	switch k := rapid.IntRange(0, 19).Draw(t, "unit"); {
 	case k >= 17:
-		ds.Unit, ds.Step, ds.N, ds.ShardDur = "month", day, 430, 90 * 24 * time.Hour
+		ds.Unit, ds.Step, ds.N, ds.ShardDur = "month", day, 430, 90*24*time.Hour
 		ds.Base = time.Date(2019, 11, 15, 0, 0, 0, 0, time.UTC).UnixNano()
-	case k >= 15:
-		ds.Unit, ds.Step, ds.N, ds.ShardDur = "big", 30*sec, 1300, 4 * time.Hour
+	case k >= 14:
+		ds.Unit, ds.Step, ds.N, ds.ShardDur = "big", 30*sec, 1300, 4*time.Hour
 		ds.Base = time.Date(2020, 9, 13, 12, 0, 0, 0, time.UTC).UnixNano()
 	default:
 		ds.Unit, ds.Step, ds.N, ds.ShardDur = "min", 30*sec, 480, time.Hour
